@@ -320,3 +320,43 @@ Proof.
   cbn [r_host r_port r_user r_pw r_path fst snd unquote_if_truthy].
   rewrite (unquote_path _ Hv). rewrite (str_eqb_neq _ _ Hne). reflexivity.
 Qed.
+
+(* ------------------------------------------------------------------ sequences of opens *)
+(* every cached entry is what opening its URI alone gives *)
+Definition cache_sound (nt : bool) (cache : list (str * str)) : Prop :=
+  forall k v, In (k, v) cache -> open_uri nt k = ROk v.
+
+Lemma cache_lookup_sound nt cache u fn :
+  cache_sound nt cache -> cache_lookup u cache = Some fn -> open_uri nt u = ROk fn.
+Proof.
+  induction cache as [|[k v] r IH]; cbn [cache_lookup]; [discriminate|]. intros Hs.
+  destruct (str_eqb k u) eqn:E.
+  - intros H. injection H as <-. apply str_eqb_eq in E. subst. apply Hs. left. reflexivity.
+  - apply IH. intros k' v' Hin. apply Hs. right. exact Hin.
+Qed.
+
+Lemma open_seq_independent nt uris : forall cache,
+  cache_sound nt cache -> open_seq nt cache uris = map (open_uri nt) uris.
+Proof.
+  induction uris as [|u r IH]; intros cache Hs; cbn [open_seq map]; [reflexivity|].
+  destruct (cache_lookup u cache) as [fn|] eqn:El.
+  - rewrite (cache_lookup_sound _ _ _ _ Hs El), (IH _ Hs). reflexivity.
+  - destruct (open_uri nt u) as [fn|e|] eqn:Eo; try (rewrite (IH _ Hs); reflexivity).
+    rewrite IH; [reflexivity|]. intros k v [H|H]; [injection H as <- <-; exact Eo|exact (Hs _ _ H)].
+Qed.
+
+Theorem open_sequence nt uris : open_seq nt [] uris = map (open_uri nt) uris.
+Proof. apply open_seq_independent. intros k v []. Qed.
+
+(* whatever was opened before in the same process, the URI a sqlite connection
+   reports for itself opens a connection with that connection's filename *)
+Theorem sqlite_after_any_history path uris u :
+  valid_text path = true -> is_abs path = true \/ path = memory_name ->
+  path <> 47 :: memory_name -> sqlite_uri path = ROk u ->
+  nth_error (open_seq false [] (uris ++ [u])) (length uris) = Some (ROk path).
+Proof.
+  intros Hv Hc Hne Hu. rewrite open_sequence, map_app, nth_error_app2 by (rewrite map_length; apply le_n).
+  rewrite map_length, PeanoNat.Nat.sub_diag. cbn [map nth_error].
+  destruct (sqlite_partial path Hv Hc Hne) as (u' & Hu' & Ho). rewrite Hu in Hu'. injection Hu' as <-.
+  rewrite Ho. reflexivity.
+Qed.
